@@ -32,6 +32,19 @@ Theorem c11_switch_pattern : forall r, pattern_kk (Some r) = true /\ pattern_kk 
 Proof. exact pattern_after_pairing. Qed.
 Print Assumptions c11_switch_pattern.
 
+(* ... but the move is not atomic. A first pairing that loses its LAST message (a relay failure): the client has
+   completed and stored the server's key, the server has failed and stored nothing; what each side now derives its
+   rendezvous and its pattern from differs, so they never meet again and no fresh connection is handed out
+   (known finding C11/first-pairing-loses-its-last-message; the harness replays it against the implementation) *)
+Theorem c11_interrupted_first_pairing_splits_refuted : forall e e',
+  let r := run (example_cfg false 0 2 0 2) drop_act3 in
+  (exists s, r_init r = Completed s /\ s_set_remote s = true /\ s_remote s = Some (Pub (Priv 2))) /\
+  r_resp r = Failed 3 /\
+  sid_of (Priv 1) (Some (Pub (Priv 2))) e <> sid_of (Priv 2) None e' /\
+  pattern_kk (Some (Pub (Priv 2))) = true /\ pattern_kk None = false.
+Proof. exact interrupted_first_pairing_splits. Qed.
+Print Assumptions c11_interrupted_first_pairing_splits_refuted.
+
 (* a client that only knows the pass phrase is an XX initiator; against the paired server (a KK
    responder) its first message is rejected, whatever its keys and pass phrase *)
 Theorem c11_stranger_rejected : forall stranger server,
